@@ -311,4 +311,5 @@ func runC02(r *an.Run) {
 		})
 
 	codecC02(r)
+	windowDiscipline(r)
 }
